@@ -88,16 +88,8 @@ def run(repo: Repo, rep: Report):
     else:
         rep.ok("R-POLY.rect", F, f"{len(outs)} paths: rectangle = [max of starts, min of ends]; None exactly when max(start) >= min(end) on an axis", True)
     sem.check_clip_to_viewbox(repo, rep, "R-GUARD.clip-viewbox")
-    _check_cli(repo, rep)
-
-
-def _check_cli(repo, rep):
-    cli = repo["picosvg"].func("_run")
-    t = unparse(cli)
-    if "if FLAGS.clip_to_viewbox:" in t and "clip_to_viewbox(inplace=True)" in t:
-        rep.ok("R-GUARD.clip-viewbox", "picosvg._run: clip_to_viewbox only under --clip_to_viewbox, after the conversion")
-    else:
-        rep.fail("R-GUARD.clip-viewbox", "picosvg._run", "if FLAGS.clip_to_viewbox: svg.clip_to_viewbox(inplace=True)", "CLI wiring of clip_to_viewbox changed", repo["picosvg"], cli)
+    from sa.rules import sem as _sem
+    _sem.check_cli(repo, rep, {"clip": "R-GUARD.clip-viewbox", "output": "R-GUARD.clip-viewbox"})
 
 
 def _inside(node, anc) -> bool:
